@@ -438,7 +438,7 @@ class Interp:
         return fails
 
     def _register(self, op):
-        s, entry = op["id"], f"{DUMMY_MODULE}:{op['entry']}"
+        s, entry = op["id"], (op["entry"] if ":" in op["entry"] else f"{DUMMY_MODULE}:{op['entry']}")
         kw = op.get("kwargs")
         p = o_parse(s)
         if kw is None:
@@ -535,7 +535,7 @@ class Interp:
                 import importlib
 
                 inst = r[1]
-                cls = getattr(importlib.import_module(DUMMY_MODULE), m["entry"].split(":")[1])
+                cls = getattr(importlib.import_module(m["entry"].split(":")[0]), m["entry"].split(":")[1])
                 want = dict(m["kwargs"])
                 want.update(kw)
                 if type(inst) is not cls:
@@ -581,7 +581,7 @@ def run_ops(ops):
 def build_machine(ctx: Ctx, max_args: int = 2):
     from hypothesis.stateful import RuleBasedStateMachine, rule
 
-    entry = st.sampled_from(["Recorder", "Recorder", "Recorder2"])
+    entry = st.sampled_from(["Recorder", "Recorder", "Recorder2", "vf.dummy2:Recorder"])
     style = st.sampled_from(["kw", "pos"])
     args = st.lists(st.sampled_from([0, 1, "p", None]), max_size=max_args)
 
